@@ -471,8 +471,10 @@ func C05(c *vf.Ctx) {
 				}
 			}
 			if lt, ok := ts.Notes["laterThread"]; ok && len(out) == 0 {
-				lo := v.r.Lines[ts.Marks["later"]].Obs.App[lt]
-				if parkedInDrpc(lo) || strings.HasPrefix(lo, "ret:msg:") {
+				ll := v.r.Lines[ts.Marks["later"]]
+				lo := ll.Obs.App[lt]
+				// only once the failure has reached the client endpoint (its own transport failed, or its reader saw the end)
+				if (e == "cli" || ll.Obs.Lib["rd_cli"] == "done") && (parkedInDrpc(lo) || strings.HasPrefix(lo, "ret:msg:")) {
 					out = append(out, finding{"C05", "Invoke issued after the failure did not fail: " + lo, ts.Marks["later"], nil})
 				}
 			}
@@ -640,7 +642,7 @@ func C12(c *vf.Ctx) {
 func C07(c *vf.Ctx) {
 	c.Assume = append(c.Assume, sysAssumeObs, sysAssumeUnits)
 	nT, nR := sizes(c, 4, 50, 60, 2000)
-	fam := sysFamily{prop: "C07", maxRPC: 3, plen: 18,
+	fam := sysFamily{prop: "C07", maxRPC: 3, plen: 14,
 		cfgs: []sys.Config{
 			{Small: true, Soft: true, Threads: thr3},
 			{Small: false, Soft: true, Manual: true, Threads: thr3},
@@ -711,7 +713,7 @@ func C02(c *vf.Ctx) {
 	c.Assume = append(c.Assume, sysAssumeObs, sysAssumeUnits,
 		"every payload, error text and rpc name carries the identity of the RPC/stream that produced it")
 	nT, nR := sizes(c, 4, 50, 60, 2000)
-	fam := sysFamily{prop: "C02", maxRPC: 4, plen: 26,
+	fam := sysFamily{prop: "C02", maxRPC: 4, plen: 20,
 		cfgs: []sys.Config{
 			{Small: true, Soft: true, Threads: thr3},
 			{Small: false, Soft: true, Threads: thr3},
